@@ -177,10 +177,56 @@ func runC05FlowRetries(c *Cfg) {
 	})
 }
 
+// runC05Getters: user-supplied settings getters (GetMaxRetries / GetWait of nodes that bring their own) are user
+// callbacks too: a cancellation that happens inside one of them is a cancellation during the run — no exec attempt
+// starts afterwards.
+func runC05Getters(c *Cfg) {
+	r := c.Rep
+	var cases []*scen.Scenario
+	for _, kind := range []int{scen.KPlainRetry, scen.KPlainRetryFB, scen.KBaseOverride} {
+		for nb := 1; nb <= 3; nb++ {
+			for k := 1; k <= nb+1; k++ {
+				for _, w := range []int{0, 1} {
+					for depth := 0; depth <= 1; depth++ {
+						nodes := []scen.NodeSpec{{Kind: kind, N: nb, WaitMs: w, Visits: []scen.Visit{{FirstOK: k, Post: "go"}}}}
+						root := 0
+						if depth == 1 {
+							nodes = append(nodes, scen.NodeSpec{Kind: scen.KFlow, N: 1, Flow: &scen.FlowSpec{Start: 0}})
+							root = 1
+						}
+						cases = append(cases, &scen.Scenario{Nodes: nodes, Root: root, Runs: 1})
+					}
+				}
+			}
+		}
+	}
+	parallel(c, len(cases), func(i int) {
+		base := cases[i]
+		refOut := scen.NewExec(base).RunOnce()
+		ref := keysOf(refOut.Events)
+		r.EvalN(1)
+		for j := 1; j <= 2*len(ref)+4; j++ {
+			v := base.Clone()
+			v.Inject = scen.Inject{Kind: "cancel-in-getter", At: j}
+			o := scen.NewExec(v).RunOnce()
+			r.EvalN(1)
+			if o.CancelSeq < 0 && o.CtxErr == "" {
+				break // fewer than j getter calls were made
+			}
+			r.Count("inject.cancel-in-getter", 1)
+			for _, f := range judgeC05(c, v, ref, &o, true) {
+				r.Violate("C05", "C05:"+f.Key, "cancelled inside the node's own settings getter (call #"+fmt.Sprint(j)+"): "+f.Detail, ScenCase{"cancel-in-getter", v})
+			}
+			r.Nontrivial(fmt.Sprintf("getter %s|%d", scenSig(base), j))
+		}
+	})
+}
+
 func runC05(c *Cfg) {
 	r := c.Rep
 	defer runC05TripAtCheck(c)
 	defer runC05FlowRetries(c)
+	defer runC05Getters(c)
 	nb := c.Pick(2000, 150000)
 	parallel(c, nb, func(i int) {
 		rg := c.Rng("c05", i)
